@@ -485,6 +485,16 @@ def value_getattr(ip, obj, name):
             return hh(ip2, ('format', _o), tuple(args) + tuple(sorted(kw.items())))
         raise EngineError("str.%s with symbolic arguments" % _n)
       return Builtin('str.' + name, call)
+  from .interp import DictLit
+  if isinstance(obj, DictLit):
+    if name == 'items':
+      return Builtin('dict.items', lambda ip2, a, k, _o=obj: PyList([(kk, vv) for kk, vv in _o.items.items()]))
+    if name == 'keys':
+      return Builtin('dict.keys', lambda ip2, a, k, _o=obj: PyList(list(_o.items.keys())))
+    if name == 'values':
+      return Builtin('dict.values', lambda ip2, a, k, _o=obj: PyList(list(_o.items.values())))
+    if name == 'get':
+      return Builtin('dict.get', lambda ip2, a, k, _o=obj: _o.items.get(a[0], a[1] if len(a) > 1 else None))
   if isinstance(obj, tuple) and name in ('index', 'count'):
     raise EngineError("tuple.%s" % name)
   if isinstance(obj, ExcVal):
